@@ -679,13 +679,15 @@ impl Add for VisualLines {
     type Output = Self;
 
     fn add(self, rhs: Self) -> Self::Output {
-        Self(self.0 + rhs.0)
+        // A line on a terminal that reports a width of zero wraps to "infinitely many" rows
+        // (`usize::MAX`); summing such counts must not overflow.
+        Self(self.0.saturating_add(rhs.0))
     }
 }
 
 impl AddAssign for VisualLines {
     fn add_assign(&mut self, rhs: Self) {
-        self.0 += rhs.0;
+        self.0 = self.0.saturating_add(rhs.0);
     }
 }
 
